@@ -169,6 +169,10 @@ class Compare(Case):
                     yield {"n": n, "vectors": [list(cells[q * n : (q + 1) * n]) for q in range(K)]}
         # values that are not flags but turn into one when narrowed to a small integer type (fractions, codes
         # congruent to a flag modulo 256, negatives): they take no part in the roll-up
+        # every evaluated flag GOOD and a position that no input evaluated (masked everywhere): the roll-up there is
+        # MISSING, whatever shortcut the all-GOOD case takes
+        for vs in ([[1, 1, ("m", 1)], [1, 1, ("m", 1)]], [[1, ("m", 4)], [("m", 1), ("m", 1)]], [[("m", 1), 1, 1]], [[1, 1, 1, ("m", 9)], [1, ("m", 1), 1, ("m", 1)], [1, 1, 1, ("m", 1)]], [[1, 1], [1, 1]]):
+            yield {"n": len(vs[0]), "vectors": vs, "keep": 1}
         odd = (3.5, 4.25, 2.5, 9.75, 1.5, 260, 259, 265, 258, 257, -252, -253, -247, 0, -1)
         for i in range(0, len(odd), 3):
             row = list(odd[i : i + 3])
